@@ -35,6 +35,7 @@ func runC13(r *Report, p *Program) {
 	c13R7(h)
 	c13R8(h)
 	c13R9(h)
+	c13R10(h)
 }
 
 func (p *Program) constInt(rel, name string) (int64, bool) {
